@@ -36,7 +36,9 @@ def gen_single(rng):
     vevents = [["linear volume", "ge", "kve", rng.choice(["", "A"])]] if rng.random() < 0.3 else []
     # a multiplicative volume event with a volume-proportional propensity blows up in finite time: its propensity reads a species
     # ... and only in networks without zero-order production (production ~ V and V *= 1.1 at a rate ~ A feed each other: blow-up)
-    if rng.random() < 0.15 and not any(not r["reactants"] for r in rxs): vevents.append(["multiplicative volume", "ge", "kve", "A"])
+    if rng.random() < 0.15 and not any(not r["reactants"] for r in rxs):
+        vevents.append(["multiplicative volume", "ge", "kve", "A"])
+        for ev in vevents: ev[3] = "A"      # no volume-proportional event propensity next to multiplicative growth (event rate ~ V ~ exp(exp))
     devents = [["kde", rng.choice(["", "B"])]] if rng.random() < 0.3 else []
     kevents = [["kke", rng.choice(["", "A"])]] if rng.random() < 0.3 else []
     dt = rng.choice([0.1, 0.25, 0.5]); n = rng.randint(3, 14); t_first = rng.choice([0.0, 0.0, 1.5])
